@@ -6,6 +6,7 @@ LEVEL = ("bounded symbolic execution of the real code over exact reals; every ob
          "(in)equalities decided by z3 (QF_LRA monomial abstraction of QF_NRA with solver-checked lemma selection); "
          "counterexample candidates are replayed on the unpatched float code before VIOLATION is printed")
 CLAIMED = {
+ "C16": ("Whitener: covariance of whitened data == I (alpha=0), unchanged (alpha=1), K^q == C for alpha=1/q (attempted, may be inconclusive); data and pattern maps mutually inverse; T Tinv == I, T and Tinv Hermitian. PCA: orthonormal basis, transform == X V, round trip with all modes, pattern maps inverse on the retained subspace", "5 C16"),
  "C13": ("attribute codec (CrossHair over symbolic strings / bools / lists on the real functions) and rebuild-from-serialised-tree for every listed model class and codec (identity, netCDF attrs, JSON attrs, placeholders): equal parameters and term-identical components, scores, transform, inverse_transform, predict", "5 C13"),
  "C17": ("every enumerated single-fault mutation of a valid call raises on every explored path; range faults (n_modes, alpha) are symbolic so the solver covers all values; the valid variants named by the property are accepted", "5 C17"),
  "C15": ("threshold truncation keeps the smallest number of modes reaching a SYMBOLIC fraction f (or all, with warning); solver policy over symbolic n, p, n_modes; seeds and solver_kwargs reach the solver call; sign convention makes the largest-magnitude loading positive and is odd", "5 C15"),
